@@ -6,7 +6,6 @@ import (
 	"path/filepath"
 	"regexp"
 	"strings"
-	"unicode/utf8"
 
 	"pgregory.net/rapid"
 	"verif.local/h/ev"
@@ -26,7 +25,8 @@ type C19Case struct {
 	ErrCol   int      `json:"err_col"`
 	ErrBlock int      `json:"err_block"`
 	Flags    []string `json:"flags"`
-	Rich     bool     `json:"rich"` // prose before a block has multi-byte runes or tabs
+	Rich     bool     `json:"rich"`   // prose before a block has multi-byte runes or tabs
+	Inline   bool     `json:"inline"` // some prose shares a line with a fence
 }
 
 var proseWords = []string{"Grammar", "for", "the", "calculator:", "`tok`", "``x``", "é世界", "naïve", "\t", "tab\tbed", "1.", "#", "##", "* item", "> quote", "'a'", "\"s\"", "A : b ;", "<< x >>", "/* c */", "// c", "$", "|", "\r", "—", "𝔘", "~~~", "`"}
@@ -55,6 +55,18 @@ func genProse(t *rapid.T) (string, bool) {
 		s = strings.ReplaceAll(s, "```", "`` `")
 	}
 	return s, rich
+}
+
+// inlineProse is prose that shares a line with a fence: before an opening
+// fence ("see: ```") or right after a closing one ("```, and so on").
+func inlineProse(t *rapid.T, after bool) string {
+	if rapid.IntRange(0, 2).Draw(t, "inlineProse") != 0 {
+		return ""
+	}
+	if after {
+		return rapid.SampledFrom([]string{", and", " then", ".", "; é", "x", "\t(end)", " `q`", "—"}).Draw(t, "proseAfterFence")
+	}
+	return rapid.SampledFrom([]string{"see: ", "Grammar:", "é世 ", "1.\t", "`x` ", "> "}).Draw(t, "proseBeforeFence")
 }
 
 func isASCIIString(s string) bool {
@@ -121,6 +133,7 @@ func genC19(t *rapid.T) C19Case {
 	p, rich := genProse(t)
 	c.Rich = c.Rich || rich
 	emit(p, false)
+	emit(inlineProse(t, false), false)
 	emit("```\n", false)
 	block = 1
 	for i, tx := range texts {
@@ -128,13 +141,22 @@ func genC19(t *rapid.T) C19Case {
 			if !strings.HasSuffix(md.String(), "\n") {
 				emit("\n", true)
 			}
-			emit("```\n", false)
+			emit("```", false)
+			if ip := inlineProse(t, true); ip != "" {
+				emit(ip, false)
+				c.Inline = true
+			}
+			emit("\n", false)
 			p, rich := genProse(t)
 			if p == "" {
 				p = "\n" // fences are surrounded by prose / separated by at least a line break
 			}
 			c.Rich = c.Rich || rich
 			emit(p, false)
+			if ip := inlineProse(t, false); ip != "" {
+				emit(ip, false)
+				c.Inline = true
+			}
 			emit("```\n", false)
 			block++
 		}
@@ -149,7 +171,12 @@ func genC19(t *rapid.T) C19Case {
 	if !strings.HasSuffix(md.String(), "\n") {
 		emit("\n", true)
 	}
-	emit("```\n", false)
+	emit("```", false)
+	if ip := inlineProse(t, true); ip != "" {
+		emit(ip, false)
+		c.Inline = true
+	}
+	emit("\n", false)
 	p, _ = genProse(t)
 	emit(p, false)
 	c.MD, c.Code, c.Blocks = md.String(), code.String(), block
@@ -161,19 +188,20 @@ func genC19(t *rapid.T) C19Case {
 // (one per character), line breaks kept.
 func blank(md string) string {
 	var b strings.Builder
-	inCode := false
-	for _, ln := range strings.SplitAfter(md, "\n") {
-		body := strings.TrimSuffix(ln, "\n")
-		nl := ln[len(body):]
-		if body == "```" {
-			inCode = !inCode
-			b.WriteString("   " + nl)
+	for i, seg := range strings.Split(md, "```") {
+		if i > 0 {
+			b.WriteString("   ")
+		}
+		if i%2 == 1 {
+			b.WriteString(seg) // code
 			continue
 		}
-		if inCode {
-			b.WriteString(ln)
-		} else {
-			b.WriteString(strings.Repeat(" ", utf8.RuneCountInString(body)) + nl)
+		for _, r := range seg {
+			if r == '\n' {
+				b.WriteRune('\n')
+			} else {
+				b.WriteRune(' ')
+			}
 		}
 	}
 	return b.String()
@@ -236,6 +264,9 @@ func checkC19(cx *Ctx, c C19Case) *Failure {
 	}
 	if c.Rich {
 		cx.Ev.Class("rich_prose")
+	}
+	if c.Inline {
+		cx.Ev.Class("prose_on_a_fence_line")
 	}
 	if c.Blocks >= 2 && c.Rich && (c.ErrLine == 0 || c.ErrBlock > 1) {
 		cx.Ev.NonTrivial(ev.Hash(c.MD), func() any {
